@@ -247,3 +247,18 @@ Theorem C07_explored_schedule_safe :
       io_marks tr = io_labels (rev (rs_lab s')).
 Proof. exact replay_run_safe. Qed.
 Print Assumptions C07_explored_schedule_safe.
+
+(** the same for the repository as it is in the working tree, in the instance the check evaluates *)
+Theorem C07_repo_explored_schedule_safe :
+  forall (items : list item) (s' : rpst unit unit) (err : option rerr),
+    replay wf1 repo_skel tt items (rpst0 cfg0) = (s', err) ->
+    exec wf1 repo_skel false cfg0 (rev (rs_lab s')) (rs_cfg s') /\
+    (err = None -> flat_map label_io (rev (rs_lab s')) = flat_map item_io items) /\
+    ~ bad (rs_cfg s') /\ ~ var_race (rs_cfg s') /\ ~ obj_race (rs_cfg s') /\
+    exists σ pl tr ph,
+      lin wf1 repo_skel false cfg0 (rev (rs_lab s')) (rs_cfg s') σ pl tr /\
+      seq_hist wf1 repo_skel (abs_of cfg0) (lins tr) σ /\
+      wb (fun _ => PIdle) tr ph /\
+      io_marks tr = io_labels (rev (rs_lab s')).
+Proof. exact repo_explored_schedule_safe. Qed.
+Print Assumptions C07_repo_explored_schedule_safe.
